@@ -345,6 +345,11 @@ fn gen_case_inner(rng: &mut Rng, idx: u64) -> Value {
     }
     if mirror { argv.push("-m".into()); }
     if reduced { argv.push("-r".into()); }
+    // ckh's extra sections (generators, differentials) follow the table; the table and the exit
+    // status must not depend on them
+    if cmd == "ckh" && enum_plan.is_none() && rng.chance(1, 3) {
+        match rng.below(3) { 0 => argv.push("-d".into()), 1 => argv.push("-g".into()), _ => { argv.push("-g".into()); argv.push("-d".into()); } }
+    }
     // internal failure: an injected panic at the n-th fault point of a kind
     let panic_faults = if enum_plan.is_none() && rng.chance(1, 6) {
         let span = *rng.pick(&[3u64, 30, 300]);
